@@ -215,12 +215,30 @@ theorem walk_from (h : StrictTotal lt) (cfg : Limits) (hcfg : cfg.maxAdvance < u
           omega
         · exact hne hdropne r' hr'
 
-/-- **walk_complete** — for any strict total order on the keys, any page size ≥ 1 and any set of
-at most `MAX_CURSOR_ADVANCE + 1` distinct matching keys: following `next` from the first request
+/-
+Full statement (C11, first sentence) over the mechanism model — FALSE for the unchanged code:
+
+  theorem walk_complete (h : StrictTotal lt) (recode) (matched) (hnd : matched.Nodup) (limit) (hl : 0 < limit) :
+      ∃ pages, walkPages lt Limits.real recode matched limit (matched.length + 1) none = some pages ∧
+        (pages.map (·.hits)).flatten = sortKeys lt matched ∧ … ∧
+        page lt Limits.real matched none (matched.length + 5) = .ok ⟨sortKeys lt matched, none, matched.length⟩
+
+What is proved (`walk_complete_partial`) needs three hypotheses, each excluding one behaviour of the
+code, each with a negative witness below:
+* `hrec`  — the key survives `encode_cursor`/`decode_cursor` (fails for f64 sort values that
+            serde_json does not parse back exactly: `walk_breaks_when_key_not_roundtripped`);
+* `hlc`   — `limit ≤ MAX_CANDIDATE_SIZE` (`large_limit_truncates`);
+* `hn`    — at most `MAX_CURSOR_ADVANCE + 1` matches (documented bound: deeper walks end in an
+            error, `deep_walk_aborts`).
+The order-theoretic core holds without any of them: `keyset_walk_complete`.
+-/
+
+/-- **walk_complete_partial** — for any strict total order on the keys and any page size ≥ 1
+(within the two limits, keys surviving the cursor codec): following `next` from the first request
 until it is absent never fails, the pages concatenate to exactly the sorted matches (every match
 once, in order), every response reports the exact total, and `next` is absent exactly on the last
 page (all earlier pages are full). -/
-theorem walk_complete (h : StrictTotal lt) (cfg : Limits) (hcfg : cfg.maxAdvance < u32Max)
+theorem walk_complete_partial (h : StrictTotal lt) (cfg : Limits) (hcfg : cfg.maxAdvance < u32Max)
     (recode : κ → κ) (matched : List κ) (hnd : matched.Nodup) (hrec : ∀ k ∈ matched, recode k = k)
     (limit : Nat) (hl : 0 < limit) (hlc : limit ≤ cfg.maxCandidates)
     (hn : matched.length ≤ cfg.maxAdvance + 1) :
@@ -244,15 +262,23 @@ theorem walk_complete (h : StrictTotal lt) (cfg : Limits) (hcfg : cfg.maxAdvance
 
 /-- every match is returned exactly once: the concatenated pages are a permutation of the
 matches without repetition -/
-theorem walk_each_once (h : StrictTotal lt) (cfg : Limits) (hcfg : cfg.maxAdvance < u32Max)
+theorem walk_each_once_partial (h : StrictTotal lt) (cfg : Limits) (hcfg : cfg.maxAdvance < u32Max)
     (recode : κ → κ) (matched : List κ) (hnd : matched.Nodup) (hrec : ∀ k ∈ matched, recode k = k)
     (limit : Nat) (hl : 0 < limit) (hlc : limit ≤ cfg.maxCandidates)
     (hn : matched.length ≤ cfg.maxAdvance + 1) :
     ∃ pages, walkPages lt cfg recode matched limit (matched.length + 1) none = some pages ∧
       ((pages.map (·.hits)).flatten).Perm matched ∧ ((pages.map (·.hits)).flatten).Nodup := by
-  obtain ⟨pages, hw, hflat, _, _⟩ := walk_complete h cfg hcfg recode matched hnd hrec limit hl hlc hn
+  obtain ⟨pages, hw, hflat, _, _⟩ :=
+    walk_complete_partial h cfg hcfg recode matched hnd hrec limit hl hlc hn
   have hp : (sortKeys lt matched).Perm matched := by rw [sortKeys_eq]; exact isort_perm_self matched
   exact ⟨pages, hw, by rw [hflat]; exact hp, by rw [hflat]; exact hp.nodup_iff.mpr hnd⟩
+
+/-- **keyset_walk_complete** (generic, unconditional): over ANY strict total order and any page
+size ≥ 1, "return the first `n` results strictly after the cursor, hand out the last one as the
+next cursor iff more than `n` remain" walks through exactly the ascending list. -/
+theorem keyset_walk_complete (h : StrictTotal lt) (l : List κ) (hl : Asc lt l) (n : Nat) (hn : 0 < n) :
+    (KeysetGen.walk lt l n (l.length + 1) none).flatten = l :=
+  KeysetGen.walk_complete h l hl n hn
 
 /-! ### totals -/
 
@@ -587,5 +613,142 @@ theorem other_plan_rejected (req : Req) (raw : Bytes) (st : CursorState) (hf : r
       subst hst; subst hst'
       simp only [Option.some.injEq] at h1 h2
       exact hne (h2.symm.trans h1)
+
+/-! ## E. the cursor codecs: `decode (encode c) = ok c` -/
+
+theorem hexVal_hexChar : ∀ n, n < 16 → hexVal (hexChar n) = some n ∧ (hexChar n).toNat ≠ 43 := by decide
+
+theorem toUInt8_toNat (n : Nat) (h : n < 256) : n.toUInt8.toNat = n := by
+  simp [Nat.toUInt8, UInt8.toNat_ofNat']; omega
+
+theorem hexByte_enc (b : UInt8) : hexByte (hexChar (b.toNat / 16)) (hexChar (b.toNat % 16)) = some b := by
+  have hb : b.toNat < 256 := UInt8.toNat_lt b
+  have h1 := hexVal_hexChar (b.toNat / 16) (by omega)
+  have h2 := hexVal_hexChar (b.toNat % 16) (by omega)
+  unfold hexByte
+  simp only [h1.2, if_false, h1.1, h2.1]
+  have : b.toNat / 16 * 16 + b.toNat % 16 = b.toNat := by omega
+  rw [this]
+  simp [Nat.toUInt8, UInt8.ofNat_toNat]
+
+theorem hexDecode_hexEncode (bs : Bytes) : hexDecode (hexEncode bs) = some bs := by
+  induction bs with
+  | nil => rfl
+  | cons b r ih => simp [hexEncode, hexDecode, hexByte_enc, ih]
+
+theorem hexEncode_length (bs : Bytes) : (hexEncode bs).length = 2 * bs.length := by
+  induction bs with
+  | nil => rfl
+  | cons b r ih => simp [hexEncode, ih]; omega
+
+theorem ofBe32_be32 (n : Nat) (h : n < 4294967296) :
+    ofBe32 (n / 16777216 % 256).toUInt8 (n / 65536 % 256).toUInt8 (n / 256 % 256).toUInt8 (n % 256).toUInt8 = n := by
+  unfold ofBe32
+  rw [toUInt8_toNat _ (Nat.mod_lt _ (by decide)), toUInt8_toNat _ (Nat.mod_lt _ (by decide)),
+    toUInt8_toNat _ (Nat.mod_lt _ (by decide)), toUInt8_toNat _ (Nat.mod_lt _ (by decide))]
+  omega
+
+/-- **cursor_roundtrip (score cursor)** — `PaginationCursor::decode(encode(c)) = Ok(c)` for every
+cursor the code can produce (fields are `u32`, version 1, `returned` within the advance cap) -/
+theorem cursor_roundtrip_score (c : ScoreCursor) (hw : c.wf) (hv : c.version = cursorVersion)
+    (hr : c.returned ≤ maxCursorAdvance) : parseScore (encodeScore c) = .ok c := by
+  obtain ⟨h0, h1, h2, h3, h4, h5⟩ := hw
+  unfold parseScore encodeScore
+  have hl : (hexEncode (scoreBytes c)).length = 42 := by
+    rw [hexEncode_length]; simp [scoreBytes, be32]
+  simp only [hl, ne_eq, not_true_eq_false, if_false, hexDecode_hexEncode]
+  simp only [scoreBytes, be32, List.cons_append, List.nil_append]
+  simp only [ofBe32_be32 _ h1, ofBe32_be32 _ h2, ofBe32_be32 _ h3, ofBe32_be32 _ h4, ofBe32_be32 _ h5]
+  have : ¬ c.returned > maxCursorAdvance := by omega
+  rw [toUInt8_toNat _ h0]
+  simp only [hv, this, if_false, not_true_eq_false]
+  cases c
+  simp only at hv
+  subst hv
+  rfl
+
+
+/-- the same through `decode_cursor` of a default-sort request of the same generation -/
+theorem decodeCursor_encodeScore (req : Req) (c : ScoreCursor) (hw : c.wf) (hv : c.version = cursorVersion)
+    (hr : c.returned ≤ maxCursorAdvance) (hf : req.scoreFast = true) (hg : c.generation = req.generation) :
+    decodeCursor req (encodeScore c) = .ok { values := [.score c.scoreBits], segmentOrd := c.segmentOrd,
+      docId := c.docId, returned := c.returned, generation := c.generation, planHash := none } := by
+  apply (decodeCursor_ok req _ _).mpr
+  exact Or.inl ⟨hf, c, cursor_roundtrip_score c hw hv hr, hg, rfl⟩
+
+/-! ## D. negative witnesses (decided by the kernel on concrete small inputs) and non-vacuity -/
+
+section Witness
+
+def ltNat (a b : Nat) : Bool := decide (a < b)
+
+theorem ltNat_strictTotal : StrictTotal ltNat where
+  irrefl := by intro a; simp [ltNat]
+  trans := by intro a b c; simp only [ltNat, decide_eq_true_eq]; omega
+  total := by intro a b hne; simp only [ltNat, decide_eq_true_eq]; omega
+
+def hitsOf {κ : Type} : Option (List (Resp κ)) → Option (List (List κ))
+  | none => none
+  | some ps => some (ps.map (·.hits))
+
+/-- non-vacuity of `walk_complete_partial`: ties of the primary value are resolved by the key
+order, three pages of size 2 -/
+example : hitsOf (walkPages ltNat Limits.real id [5, 3, 9, 1, 7] 2 6 none) = some [[1, 3], [5, 7], [9]] := by
+  decide
+
+/-- the known finding "large limit": with `MAX_CANDIDATE_SIZE = 2` a request with limit 3 over four
+matches returns three hits and **no** cursor (the real constants are 20000 / 20001 hits) -/
+theorem large_limit_truncates :
+    (page ltNat { maxAdvance := 10, maxCandidates := 2 } [3, 1, 4, 2] none 3).toOption
+      = some { hits := [1, 2, 3], next := none, total := 4 } := by
+  decide
+
+/-- the known finding "f64 sort value": if the key of the last hit of a page does not come back
+unchanged from the cursor (here 2 ↦ 20), the next request fails (`saw_cursor` stays false) -/
+theorem walk_breaks_when_key_not_roundtripped :
+    walkPages ltNat Limits.real (fun k => if k = 2 then 20 else k) [1, 2, 3] 1 4 none = none := by
+  decide
+
+/-- the documented depth bound: with `MAX_CURSOR_ADVANCE = 2` the walk over four matches ends in
+an error on the fourth request (the real constant is 50000) -/
+theorem deep_walk_aborts :
+    walkPages ltNat { maxAdvance := 2, maxCandidates := 10 } id [1, 2, 3, 4] 1 5 none = none := by
+  decide
+
+/-- `total_hits_estimate` with pruning: two of the three remaining matches were never evaluated -/
+example : (page ltNat Limits.real [1, 2, 3, 4] (some { key := 1, returned := 1 }) 1 2).toOption.map (·.total)
+    = some 2 := by decide
+
+def Dec.isOk {α : Type} : Dec α → Bool
+  | .ok _ => true
+  | _ => false
+
+/-- two segments (generations 1 and 2) -/
+def wIdx : Index := [{ generation := 1, docs := 2, deleted := [] }, { generation := 2, docs := 1, deleted := [] }]
+
+/-- the cursor after the first hit (segment 0, doc 0, score 1.0) of a default-sort request -/
+def wCur : ScoreCursor :=
+  { version := 1, generation := 2, scoreBits := 1065353216, segmentOrd := 0, docId := 0, returned := 1 }
+
+/-- **negative witness for `stale_rejected`** — a delete-only commit (document 0 of segment 1 is
+tombstoned) changes the contents but not the generation, and the old cursor still decodes -/
+theorem stale_accepted_after_delete_only :
+    liveCount (commit wIdx [(1, 0)] 0) ≠ liveCount wIdx ∧
+    manifestGen (commit wIdx [(1, 0)] 0) = manifestGen wIdx ∧
+    (decodeCursor { generation := manifestGen (commit wIdx [(1, 0)] 0), planHash := 0, planLen := 1,
+                    scoreFast := true } (encodeScore wCur)).isOk = true := by
+  decide
+
+/-- …whereas after a commit that adds a document the same cursor is rejected -/
+example : (decodeCursor ⟨manifestGen (commit wIdx [(1, 0)] 1), 0, 1, true⟩ (encodeScore wCur))
+    = .error .generation := by
+  decide
+
+/-- a score cursor presented to a request with a sort plan is not even hex(JSON) -/
+example : (decodeCursor { generation := 2, planHash := 7, planLen := 1, scoreFast := false }
+    (encodeScore wCur)) = .error .json := by
+  decide
+
+end Witness
 
 end SL.Cursor
